@@ -22,6 +22,7 @@ type CliCase struct {
 	More   []*ref.Node `json:"more,omitempty"` // further trees of the input stream (other sizes, other tip sets)
 	First  bool        `json:"more_first,omitempty"`
 	ToFile bool        `json:"to_file,omitempty"` // result written with -o file instead of stdout
+	InMode string      `json:"in_mode,omitempty"` // how the input stream is handed over (cli.InModes)
 	Cmd    string    `json:"cmd"` // outgroup-args | outgroup-file | midpoint | unroot | sort
 	Names  []string  `json:"names,omitempty"`
 	Remove bool      `json:"remove,omitempty"`
@@ -64,7 +65,7 @@ func checkCli(c CliCase) error {
 	case "sort":
 		args = []string{"rotate", "sort"}
 	}
-	return cli.DifferentialOut(args, text, files, outFlag(c.ToFile), func() (string, error) {
+	return cli.DifferentialIn(args, text, files, outFlag(c.ToFile), c.InMode, func() (string, error) {
 		out := ""
 		for _, m := range c.stream() {
 			t, err := gt.FromModel(m)
@@ -95,7 +96,7 @@ func checkCli(c CliCase) error {
 func TestC05Cli(t *testing.T) {
 	h.Run(t, h.Spec[CliCase]{
 		Property: "C05", Name: "cli", Quick: 1600, Thorough: 32000,
-		Rule: "`gotree reroot outgroup` (tips as arguments or -l file, -r, --strict; clade, non-clade and absent names), `reroot midpoint`, `unroot`, `rotate sort` on generated trees: the printed tree must be byte-identical to what the library call gives (or both report an error); the library calls themselves are judged by the other checks of C05; half of the inputs are streams of 2-3 trees of different sizes and tip sets (every tree must be treated like a single one); non-trivial = multifurcating or rooted input",
+		Rule: "`gotree reroot outgroup` (tips as arguments or -l file, -r, --strict; clade, non-clade and absent names), `reroot midpoint`, `unroot`, `rotate sort` on generated trees: the printed tree must be byte-identical to what the library call gives (or both report an error); the library calls themselves are judged by the other checks of C05; the input comes on stdin, as a file, as a gzip file or as a Nexus document (--format nexus, with or without translate table); half of the inputs are streams of 2-3 trees of different sizes and tip sets (every tree must be treated like a single one); non-trivial = multifurcating or rooted input",
 		Gen: func(t *rapid.T, thorough bool) CliCase {
 			o := gen.Opts{MinTips: 3, MaxTips: 12, Rooted: -1, MaxDeg: 5, Lens: gen.AnyPresence, LenVals: gen.DyadicZ, Sups: gen.AnyPresence}
 			m := gen.Tree(t, o)
@@ -122,6 +123,7 @@ func TestC05Cli(t *testing.T) {
 			}
 			c.First = rapid.Bool().Draw(t, "morefirst")
 			c.ToFile = rapid.IntRange(0, 2).Draw(t, "tofile") == 0
+			c.InMode = rapid.SampledFrom(cli.InModes).Draw(t, "inmode")
 			return c
 		},
 		Check: checkCli,
